@@ -118,6 +118,10 @@ func c01GenRuleText(r *rng) string {
 		}
 	case 2, 3: // $domain rules with short patterns (domains table), incl. wildcard TLD
 		pool := append(append([]string{}, poolDomains...), poolWildDomains...)
+		if r.chance(1, 3) {
+			// the value is a PARENT of the pages' hosts, often a public suffix (co.uk, blogspot.com, kawasaki.jp, org)
+			pool = r1DotSuffixes(poolDomains)
+		}
 		pat := pick(r, c01Short)
 		if r.chance(1, 4) {
 			pat = pick(r, c01Stems) // long shortcut AND $domain: shortcuts table wins
@@ -340,6 +344,18 @@ func c01Source(r *rng, f *rules.NetworkRule) string {
 		d = strings.TrimSuffix(d, "*") + pick(r, []string{"com", "co.uk", "de", "org", "notatld"})
 	}
 
+	if r.chance(1, 3) {
+		// a host of the pool living below the permitted domain (the value is its parent / its public suffix)
+		var below []string
+		for _, h := range poolDomains {
+			if strings.HasSuffix(h, "."+d) {
+				below = append(below, h)
+			}
+		}
+		if len(below) > 0 {
+			d = pick(r, below)
+		}
+	}
 	if r.chance(1, 6) {
 		d = mutateCase(r, d) // the source host as written: it is not lower-cased for the $domain tests
 	}
